@@ -16,7 +16,10 @@ Step(e) ==
     \* direct acquisitions and the acquisitions made by with_reader_token / with_writer_token
     \* (logged by the closure when it starts): one action
     \/ e.op = "acq" /\ e.ok  /\ AcquireOk(e.id, e.m, e.kind, e.ver, e.tracked, e.tk)
-    \/ e.op = "acq" /\ ~e.ok /\ AcquireRefused(e.m, e.kind)
+    \/ e.op = "acq" /\ ~e.ok /\ ~Has(e, "must") /\ AcquireRefused(e.m, e.kind)
+    \/ e.op = "acq" /\ ~e.ok /\ Has(e, "must")  /\ AcquireRefusedAtQuiescence(e.m, e.kind)
+    \/ e.op = "unwind"   /\ Unwind(e.ids)
+    \/ e.op = "obs_quiescent" /\ ObserveQuiescent(e.m, e.min, e.cur, e.ar, e.aw)
     \/ e.op = "acq_cached" /\ HandOutCached(e.id, e.m, e.kind, e.ver, e.tracked, e.tk)
     \/ e.op = "cache_put" /\ CachePut(e.id)
     \/ e.op = "cache_get" /\ e.hit  /\ CacheGet(e.id, e.kind, e.ver, e.valid)
